@@ -1,6 +1,6 @@
 (* Pf_Hist.v — an invariant of fault-free, API-call-atomic histories of any number of threads, and from it the
    whole-history theorems of C03 and C17: the monitors hold of the model for EVERY such history. *)
-From HL Require Import Base Model Shape Algo Api OpsLemmas Lemmas ShapeLemmas ApiLemmas QuietLemmas Pf_Calls Check Monitors Pf_C06 Pf_C13 Pf_Acct.
+From HL Require Import Base Model Shape Algo Api OpsLemmas Lemmas ShapeLemmas ApiLemmas QuietLemmas NoRel Pf_Calls Check Monitors Pf_C06 Pf_C13 Pf_Acct.
 
 (* ---------------------------------------------------------------- who holds what, per raw state *)
 Definition wf_rawst (s : rawst) : Prop := writer s <> None -> readers s = [].
@@ -315,6 +315,7 @@ Proof. apply ops_in_weaken. intros o. destruct o; simpl; tauto. Qed.
 Definition scoped_shape (sc : scen) (t : tid) (c : nat) (m : mode) (w w' : world) : Prop :=
   exists w1 w2 evA evR,
     w_trace w1 = evA ++ w_trace w /\ Forall nomark_ev evA /\ Forall (by_thread t) evA /\ Forall rel_res_ok evA /\
+    Forall norel_ev evA /\
     (forall l, hc t (w_raw w1 l) + releases_of l evA = hc t (w_raw w l) + acquires_of l evA) /\
     (forall x, w_raw w1 x = acq_all t m (kleaves (shape_of sc c)) (w_raw w) x) /\
     frame (emit w1 (EMark t 1)) w2 /\ w_trace w' = evR ++ w_trace w2 /\ Forall tail_ev evR.
@@ -335,7 +336,11 @@ Record call_out (sc : scen) (t : tid) (lc : tlocal) (o : apiop) (w : world) (out
               match snd (api_fin (sc_env sc) lc o out) with
               | ROk | RPanicked => scoped_shape sc t c m w w'
               | _ => exists evs, w_trace w' = evs ++ w_trace w /\ Forall nomark_ev evs
-              end
+              end;
+  (* a closure that panics makes the call panic *)
+  cq_nook : forall c m lent body,
+              (o = AAcquire c m (FScoped lent body) \/ o = AAcquire c m (FScopedTry lent body)) ->
+              existsb is_cpanic body = true -> snd (api_fin (sc_env sc) lc o out) <> ROk
 }.
 
 
@@ -399,6 +404,7 @@ Section CallAcq.
       + intros c' m' f' Heq _. inversion Heq; subst. rewrite (shape_of_coll _ _ _ Hc). exact Can.
       + intros _. apply (eff_tr _ _ _ (eff_trans _ _ _ _ _ E1 E2)).
       + intros c' m' X; discriminate X.
+      + intros c' m' l' b' [X|X] _; discriminate X.
     - destruct L as [w1 R1].
       assert (Rc : run nopw t (with_key true false (raw_lock (e_fuel e) m a ;; see_all (gpoisons (gitems s)) ;; poison_result s)) w
                    = (OBlocked, w1)).
@@ -407,6 +413,7 @@ Section CallAcq.
       constructor; cbn [api_fin snd stop_code]; try (intros H; discriminate H); try reflexivity.
       + intros c' m' f' _ H. discriminate H.
       + intros c' m' X; discriminate X.
+      + intros c' m' l' b' [X|X] _; discriminate X.
   Qed.
 End CallAcq.
 
@@ -448,6 +455,7 @@ Section CallAcq2.
       + intros c' m' f' Heq _. inversion Heq; subst. rewrite (shape_of_coll _ _ _ Hc). exact Can.
       + intros _. apply (eff_tr _ _ _ (eff_trans _ _ _ _ _ E1 E2)).
       + intros c' m' X; discriminate X.
+      + intros c' m' l' b' [X|X] _; discriminate X.
     - assert (Rc : run nopw t (with_key true false
                   (Bind (raw_try m a)
                         (fun v => if vtrue v then see_all (gpoisons (gitems s)) ;; poison_result s else Ret (VNat 1)))) w
@@ -462,6 +470,7 @@ Section CallAcq2.
       + intros c' m' f' _ H. discriminate H.
       + intros _. apply (eff_tr _ _ _ E1).
       + intros c' m' X; discriminate X.
+      + intros c' m' l' b' [X|X] _; discriminate X.
   Qed.
 
   Lemma call_acq_scoped lent body out w' :
@@ -488,16 +497,20 @@ Section CallAcq2.
           assert (evA' = evA) by (rewrite TA in TA'; now apply app_inv_tail in TA'). subst evA'.
           destruct (run_rel_res nopw t _ _ _ _ Ra) as [evA'' [TA'' FA'']].
           assert (evA'' = evA) by (rewrite TA in TA''; now apply app_inv_tail in TA''). subst evA''.
-          exists wa, wb, evA, evR. split; [exact TA|]. split; [exact FA'|]. split; [exact FA|]. split; [exact FA''|]. split; [exact HA|].
+          destruct (raw_lock_ok_norel t m (e_am e) s (e_fuel e) w _ _ Ha ND Q Hf Can Ra) as [evN [TN FN]].
+          assert (evN = evA) by (rewrite TA in TN; now apply app_inv_tail in TN). subst evN.
+          exists wa, wb, evA, evR. split; [exact TA|]. split; [exact FA'|]. split; [exact FA|]. split; [exact FA''|]. split; [exact FN|]. split; [exact HA|].
           split; [intros x; rewrite (eff_raw _ _ _ Ea); now rewrite (shape_of_coll _ _ _ Hc)|].
           split; [exact Fb|]. split; [exact Tb|exact Ftl]. }
         destruct (existsb is_cpanic body); exact Sh.
+      + intros c' m' l' b' [X|X] Hp; inversion X; subst. rewrite Hp. discriminate.
     - pose proof (raw_lock_all_or_wait t m (e_am e) s Ha ND (e_fuel e) w Q Hf) as L. rewrite Can in L.
       destruct L as [w1 R1]. fold a in R1.
       rewrite (run_scoped_rest_blocked _ _ _ _ _ _ _ _ _ R1) in R. inversion R; subst out w'. clear R.
       constructor; cbn [api_fin snd stop_code]; try (intros H; discriminate H); try reflexivity.
       + intros c' m' f' _ H. discriminate H.
       + intros c' m' _. apply (run_nomark nopw t _ _ _ _ (alg_nomark _ (raw_lock_ops (e_fuel e) m a)) R1).
+      + intros c' m' l' b' _ _. discriminate.
   Qed.
 
   Lemma call_acq_scoped_try lent body out w' :
@@ -531,10 +544,13 @@ Section CallAcq2.
           assert (evA' = evA) by (rewrite TA in TA'; now apply app_inv_tail in TA'). subst evA'.
           destruct (run_rel_res nopw t _ _ _ _ R1) as [evA'' [TA'' FA'']].
           assert (evA'' = evA) by (rewrite TA in TA''; now apply app_inv_tail in TA''). subst evA''.
-          exists w1, wb, evA, evR. split; [exact TA|]. split; [exact FA'|]. split; [exact FA|]. split; [exact FA''|]. split; [exact HA|].
+          destruct (raw_try_true_norel nopw t m _ w _ R1) as [evN [TN FN]].
+          assert (evN = evA) by (rewrite TA in TN; now apply app_inv_tail in TN). subst evN.
+          exists w1, wb, evA, evR. split; [exact TA|]. split; [exact FA'|]. split; [exact FA|]. split; [exact FA''|]. split; [exact FN|]. split; [exact HA|].
           split; [intros x; rewrite (eff_raw _ _ _ E1); now rewrite (shape_of_coll _ _ _ Hc)|].
           split; [exact Fb|]. split; [exact Tb|exact Ftl]. }
         destruct (existsb is_cpanic body); exact Sh.
+      + intros c' m' l' b' [X|X] Hp; inversion X; subst. rewrite Hp. discriminate.
     - cbn [run] in R. inversion R; subst out w'. clear R.
       constructor; cbn [api_fin snd stop_code].
       + intros H; discriminate H.
@@ -543,6 +559,7 @@ Section CallAcq2.
       + intros c' m' f' _ H. discriminate H.
       + intros _. apply (eff_tr _ _ _ E1).
       + intros c' m' _. apply (run_nomark nopw t _ _ _ _ (alg_nomark _ (raw_try_ops m (alg_of (e_am e) s))) R1).
+      + intros c' m' l' b' _ _. discriminate.
   Qed.
 End CallAcq2.
 
@@ -562,6 +579,7 @@ Proof.
   - intros c m f _ H. rewrite Hg in H. discriminate H.
   - intros _. exact Hc.
   - intros c m X. rewrite Hsc in X. discriminate X.
+  - intros c m l b [X|X] _; subst o; discriminate Hsc.
 Qed.
 
 Lemma call_Q sc t lc o p w out w' :
@@ -595,6 +613,7 @@ Proof.
     + intros c m f X. discriminate X.
     + intros _. apply (eff_tr _ _ _ E1).
     + intros c m X. discriminate X.
+    + intros c m l b [X|X] _; discriminate X.
   - (* AGuardUnlock *)
     destruct (guard lc) as [[gm items]|] eqn:G; [|discriminate]. injection Hp as Hp; subst p. cbn [g_mode g_items] in R.
     destruct (Hg gm items G) as [ND H].
@@ -606,6 +625,7 @@ Proof.
     + intros c m f X. discriminate X.
     + intros _. apply (eff_tr _ _ _ E1).
     + intros c m X. discriminate X.
+    + intros c m l b [X|X] _; discriminate X.
   - (* AGuardForget *)
     destruct (guard lc); [|discriminate]. injection Hp as Hp; subst p. cbn in R. inversion R; subst out w'.
     apply call_out_same; auto; (exists []; split; [reflexivity|constructor]).
@@ -630,6 +650,7 @@ Proof.
       * intros c m f X. discriminate X.
       * intros _. apply (ep_tr _ _ _ _ E1).
       * intros c m X. discriminate X.
+      * intros c m l b [X|X] _; discriminate X.
     + injection Hp as Hp; subst p.
       assert (Rr : run nopw t (Bind (with_key false (haskey lc) skip) (fun _ => Throw)) w =
                    (OPanic, if haskey lc then set_keyf w t false else w)).
@@ -641,6 +662,7 @@ Proof.
       * intros c m f X. discriminate X.
       * intros _. destruct (haskey lc); (exists []; split; [reflexivity|constructor]).
       * intros c m X. discriminate X.
+      * intros c m l b [X|X] _; discriminate X.
   - (* AIsPoisoned *)
     destruct (coll (sc_env sc) c) as [[| | | | | |q s']|]; try discriminate. injection Hp as Hp; subst p.
     cbn in R. inversion R; subst out w'. apply call_out_same; auto; (exists []; split; [reflexivity|constructor]).
